@@ -354,6 +354,11 @@ func (c *vf10Client) deadlines() string {
 	if d := dl[0].T.Sub(dl[0].At); d <= 0 || d > 10*time.Minute {
 		return fmt.Sprintf("VIOL[c10-scramblesuit-deadline]: handshake deadline armed %v in the future", d)
 	}
+	for _, d := range dl[1:] {
+		if !d.T.IsZero() && d.T.After(dl[0].T.Add(2*time.Millisecond)) {
+			return fmt.Sprintf("VIOL[c10-scramblesuit-deadline-slides]: the handshake started under the read deadline %s; after %d reads the deadline was moved to %s (%v later): every piece of input pushes the timeout back", dl[0].T.Format("15:04:05.000000"), d.ReadsBefore, d.T.Format("15:04:05.000000"), d.T.Sub(dl[0].T))
+		}
+	}
 	if c.ep.SetupDone() && c.ep.SetupErr() == nil {
 		if last := dl[len(dl)-1]; !last.T.IsZero() {
 			return fmt.Sprintf("VIOL[c10-scramblesuit-deadline]: Dial succeeded and the last deadline call is %v, not the zero time: a stale handshake timer stays armed", last.T)
